@@ -72,7 +72,10 @@ func (w *opWrap) ValidateInputs(in []tensor.Tensor) ([]tensor.Tensor, error) {
 	w.y()
 	return w.Operator.ValidateInputs(in)
 }
-func (w *opWrap) Apply(in []tensor.Tensor) ([]tensor.Tensor, error) { w.y(); return w.Operator.Apply(in) }
+func (w *opWrap) Apply(in []tensor.Tensor) ([]tensor.Tensor, error) {
+	w.y()
+	return w.Operator.Apply(in)
+}
 
 func instrument(m *gonnx.Model, y func()) {
 	orig := m.GetOperator
